@@ -460,6 +460,136 @@ theorem applyOp_wf {h h' : Heap} (wf : WF h) (op : Op) (hop : applyOp h op = som
       · intro hi j hj; exact wf.fields id hi j hj
     · cases hop
 
+/-! ### a snapshot the monitor accepts is the reachable graph -/
+
+theorem strictIncr_pairwise : ∀ (l : List Id), strictIncr l = true → l.Pairwise (· < ·)
+  | [], _ => List.Pairwise.nil
+  | [a], _ => by simp
+  | a :: b :: rest, h => by
+    simp only [strictIncr, Bool.and_eq_true, decide_eq_true_eq] at h
+    have ih := strictIncr_pairwise (b :: rest) h.2
+    refine List.pairwise_cons.2 ⟨?_, ih⟩
+    intro c hc
+    rcases List.mem_cons.1 hc with rfl | hc
+    · exact h.1
+    · exact Nat.lt_trans h.1 ((List.pairwise_cons.1 ih).1 c hc)
+
+theorem firstSome_none {α β} (f : α → Option β) : ∀ (l : List α), firstSome f l = none → ∀ a ∈ l, f a = none
+  | [], _, a, ha => by cases ha
+  | x :: rest, h, a, ha => by
+    unfold firstSome at h
+    split at h
+    · cases h
+    · rename_i hx
+      rcases List.mem_cons.1 ha with rfl | ha
+      · exact hx
+      · exact firstSome_none f rest h a ha
+
+theorem checkObj_none {h : Heap} {r : Array Bool} {o : SObj} (hc : checkObj h r o = none) :
+    ∃ w, h.objs[o.id]? = some w ∧ r.getD o.id false = true ∧ o.size = w.size ∧ o.hashok = true ∧
+      objFieldsOk w o = true := by
+  unfold checkObj at hc
+  split at hc
+  · cases hc
+  · rename_i w hw
+    refine ⟨w, hw, ?_⟩
+    by_cases h1 : r.getD o.id false = true
+    · by_cases h2 : o.size = w.size
+      · by_cases h3 : o.hashok = true
+        · by_cases h4 : objFieldsOk w o = true
+          · exact ⟨h1, h2, h3, h4⟩
+          · simp [h1, h2, h3, h4] at hc
+        · simp [h1, h2, h3] at hc
+      · simp [h1, h2] at hc
+    · simp [h1] at hc
+
+theorem firstLost_none (r seen : Array Bool) : ∀ (n : Nat), firstLost r seen n = none →
+    ∀ i, i < n → r.getD i false = true → seen.getD i false = true
+  | 0, _, i, hi, _ => by omega
+  | n + 1, h, i, hi, hr => by
+    unfold firstLost at h
+    split at h
+    · cases h
+    · rename_i hn
+      by_cases hin : i = n
+      · subst hin
+        by_cases hs : seen.getD i false = true
+        · exact hs
+        · simp [hr, hs] at h
+      · exact firstLost_none r seen n hn i (by omega) hr
+
+theorem foldl_mark_mem (j : Nat) : ∀ (ids : List Id) (a : Array Bool),
+    (ids.foldl (fun a i => a.setIfInBounds i true) a).getD j false = true → a.getD j false = true ∨ j ∈ ids
+  | [], a, h => Or.inl h
+  | i :: rest, a, h => by
+    simp only [List.foldl_cons] at h
+    rcases foldl_mark_mem j rest _ h with h' | h'
+    · rw [getD_set] at h'
+      by_cases hc : i = j ∧ i < a.size
+      · exact Or.inr (hc.1 ▸ List.mem_cons_self)
+      · rw [if_neg hc] at h'; exact Or.inl h'
+    · exact Or.inr (List.mem_cons_of_mem _ h')
+
+theorem reachable_lt {h : Heap} {roots : List Id} {i : Id} (hr : ReachableFrom h roots i) : i < h.objs.size := by
+  cases hr with
+  | root _ hs => exact hs
+  | step _ _ hs => exact hs
+
+/-- **C01 on the graph**: if `checkSnap` accepts a snapshot then (1) every id is listed at most once, (2) every
+listed object is `Reachable` in the shadow heap and agrees with it on size, payload hash and fields-as-ids,
+(3) every `Reachable` id is listed, (4) the root slots hold the right ids. -/
+theorem checkSnap_sound (h : Heap) (s : Snap) (hc : checkSnap h s = none) :
+    (s.objs.map (·.id)).Pairwise (· < ·) ∧
+    (∀ o ∈ s.objs, Reachable h o.id ∧ ∃ w, h.objs[o.id]? = some w ∧ o.size = w.size ∧ o.hashok = true ∧
+      objFieldsOk w o = true) ∧
+    (∀ i, Reachable h i → ∃ o ∈ s.objs, o.id = i) ∧
+    rootsOk h.roots s.roots = true := by
+  unfold checkSnap at hc
+  simp only at hc
+  split at hc
+  · cases hc
+  · rename_i hinc
+    split at hc
+    · cases hc
+    · rename_i hobjs
+      split at hc
+      · cases hc
+      · rename_i hlost
+        split at hc
+        · cases hc
+        · rename_i hroots
+          refine ⟨strictIncr_pairwise _ (by simpa using hinc), ?_, ?_, by simpa using hroots⟩
+          · intro o ho
+            have ⟨w, hw, hr, h2, h3, h4⟩ := checkObj_none (firstSome_none _ _ hobjs o ho)
+            exact ⟨(reach_iff h o.id).1 hr, w, hw, h2, h3, h4⟩
+          · intro i hi
+            have hm : (reach h).getD i false = true := (reach_iff h i).2 hi
+            have hseen := firstLost_none _ _ _ hlost i (reachable_lt hi) hm
+            rcases foldl_mark_mem i _ _ hseen with h0 | hmem
+            · rw [getD_replicate_false] at h0; cases h0
+            · obtain ⟨o, ho, rfl⟩ := List.mem_map.1 hmem
+              exact ⟨o, ho, rfl⟩
+
+/-! ### the hypotheses are satisfiable: a concrete heap (a cycle 0 → 1 → 0, garbage 2, shared 3) -/
+
+def exHeap : Heap :=
+  { objs := #[{ id := 0, size := 48, sem := .default, nfields := 2, fields := [some 1, some 3] },
+              { id := 1, size := 40, sem := .los, nfields := 1, fields := [some 0] },
+              { id := 2, size := 40, sem := .default, nfields := 1, fields := [some 3] },
+              { id := 3, size := 32, sem := .immortal, nfields := 0, fields := [] }],
+    roots := [(mutKey 0 5, 0)] }
+
+example : exHeap.isReachable 1 = true ∧ exHeap.isReachable 3 = true ∧ exHeap.isReachable 2 = false := by decide
+example : Reachable exHeap 3 :=
+  .step (i := 0) (.root (by decide) (by decide)) (by decide) (by decide)
+def exSnap (withShared : Bool) : Snap :=
+  { gcs := 1, roots := [(mutKey 0 5, SVal.id 0)],
+    objs := [⟨0, 0x1010, 48, 'D', true, [SVal.id 1, SVal.id 3]⟩, ⟨1, 0x2008, 40, 'L', true, [SVal.id 0]⟩] ++
+            (if withShared then [⟨3, 0x3008, 32, 'I', true, []⟩] else []) }
+
+example : (checkSnap exHeap (exSnap true)).map (·.1) = none := by decide
+example : (checkSnap exHeap (exSnap false)).map (·.1) = some "gc:lost-object" := by decide
+
 /-! ### algorithm
 
 (reserved for the lead's theorems about the abstract collection algorithm of `Model/Trace.lean`:
